@@ -431,9 +431,11 @@ class C18(Prop):
                                      f"{ref[1]}/{ref[2]}/suppress={ref[3]} -> {ref[0]!r} but {name}/{default}/suppress={suppress} "
                                      f"-> {key!r}; src={src!r} ref_src={ref[4]!r}")
                             return res
-                        if (case["kind"] == "static" and not suppress and out[0] == "ok" and default == "+"
-                                and name in ("allnone", "all+")):
-                            # no trimming in force: literal text is reproduced character for character
+                        if (case["kind"] == "static" and not suppress and out[0] == "ok"
+                                and ((default == "+" and name == "allnone") or name == "all+")):
+                            # no trimming in force (the default mode is `+` and nothing is marked, or every
+                            # position carries an explicit `+` whatever the default mode): literal text is
+                            # reproduced character for character
                             want = model_render(p, default)
                             if out[1] != want:
                                 res.fail("verbatim", f"not-verbatim:{self._culprit(p)}",
